@@ -17,7 +17,7 @@ pub const META: Meta = Meta {
     rule: "Cases are (entity length L, Range header value) pairs: (a) every set of 1-2 specs (1-3 for L<=4) over all three spec forms with positions 0..=L+2 for L in 1..=8 [exhaustive]; (b) the boundary product L x positions from {0,1,L-1,L,L+1,2^32,2^63,2^64-2,2^64-1,2^64,10^25}, 1-2 specs exhaustive and 3 specs sampled; (c) proptest threshold sets aimed at the multipart/200 decision; (d) near-miss and garbage headers. Oracle: independent u128 resolver returning the set of outcomes the statement allows. Non-trivial = grammatical header whose resolution clamps, uses a suffix, drops a spec or yields several ranges, or a non-grammatical header; distinct by fingerprint of (L, header).",
     assumptions: &[
         "harness entity honours the Entity contract (exact bytes, fused streams)",
-        "lenient-but-RFC-grammatical forms (OWS before commas, empty list elements, unit in another case, numbers beyond u64 or over 20 digits, last<first) may be either ignored or resolved; both are accepted",
+        "lenient-but-RFC-grammatical forms (OWS before commas, empty list elements, unit in another case, last<first) may be either ignored or resolved; both are accepted; numbers of 2^64 and beyond make the header unparseable (200); zero-padded numbers that fit u64 are grammatical and must be resolved",
         "L = 0 is outside the statement (only 416 or 200 accepted, no panic)",
     ],
 };
@@ -89,6 +89,7 @@ pub fn check(c: &Case, acc: &mut Acc) -> Check {
         plan: if c.plan.is_empty() { vec![PStep::Rest] } else { c.plan.clone() },
         faults: vec![],
         tail: vec![],
+        segments: 0,
     };
     let req = ReqSpec::get().with("range", &c.range.0);
     let hdr_bytes: usize = c.headers.iter().map(|(k, v)| k.len() + v.0.len() + 4).sum();
@@ -405,6 +406,17 @@ pub fn run(cx: &Cx) -> Acc {
     acc.merge(par_units(cx, "boundary-product", BOUNDARY_LENS, true, "L x positions from the boundary set, all sets of 1-2 specs", |cx, &l, acc| {
         let specs = all_specs(l, &boundary_positions(l));
         run_sets(cx, "boundary-product", l, &specs, 2, acc);
+    }));
+    // (b'') zero-padded spellings of every boundary position, widths 2..=26, each spec form.
+    acc.merge(par_units(cx, "zero-padded", BOUNDARY_LENS, true, "L x boundary positions < 2^64 spelled with leading zeros up to 26 characters wide, in first-, last- and suffix position", |cx, &l, acc| {
+        for &p in boundary_positions(l).iter().filter(|p| **p <= u64::MAX as u128) {
+            for w in [2usize, 19, 20, 21, 22, 26] {
+                for r in [format!("bytes={p:0w$}-"), format!("bytes=0-{p:0w$}"), format!("bytes=-{p:0w$}"), format!("bytes=0-0,{p:0w$}-{p:0w$}")] {
+                    let c = Case { len: l, range: Bs(r.into_bytes()), plan: vec![], headers: vec![] };
+                    acc.run_case(cx, "zero-padded", &c, |acc| check(&c, acc));
+                }
+            }
+        }
     }));
     // (b') 3 specs sampled, (c), (d), random.
     let n = cx.tier.pick(1u64, 20u64);
